@@ -17,7 +17,118 @@ def same(a, b):
     return all(abs(ev(a, x, y) - ev(b, x, y)) < 1e-9 for x, y in GRID)
 
 
+def ev_total(s, x, y):
+    try:
+        return ev(s, x, y)
+    except ZeroDivisionError:
+        raise
+    except Exception as e:      # noqa  (a malformed expression)
+        return "not evaluable: %s" % type(e).__name__
+
+
+def run_closure(tier, seed):
+    """The operands a real evaluation feeds back into the semiring are its own outputs: all expressions of the base
+    alphabet combined once more by the semiring's own plus/times/negate, then the laws on (sampled) pairs/triples."""
+    import random
+    from problog.evaluator import SemiringSymbolic
+    s = SemiringSymbolic()
+    rng = random.Random(seed * 977 + 12)
+    level1 = list(OPERANDS)
+    for a, b in itertools.product(OPERANDS, repeat=2):
+        for e in (s.plus(a, b), s.times(a, b)):
+            if e not in level1:
+                level1.append(e)
+    for a in list(level1):
+        e = s.negate(a)
+        if e not in level1:
+            level1.append(e)
+    n = 60000 if tier == "thorough" else 8000
+    col = Collector("C12:SemiringSymbolic-closure", "%d operands (the base alphabet closed once under the semiring's own plus, "
+                    "times and negate); negate and the unit laws on every operand, the binary laws and distributivity on %d "
+                    "seeded pairs/triples; every produced expression must be evaluable and is evaluated on the (x, y) grid"
+                    % (len(level1), n))
+
+    def same2(lhs, rhs):
+        for x, y in GRID:
+            try:
+                l, r = ev_total(lhs, x, y), ev_total(rhs, x, y)
+            except ZeroDivisionError:
+                continue
+            if isinstance(l, str) or isinstance(r, str) or abs(l - r) > 1e-9:
+                return False
+        return True
+
+    def chk(name, lhs, rhs, ops):
+        col.case((name,) + tuple(ops))
+        if not same2(lhs, rhs):
+            col.violation("bounded:symbolic:" + name, "%s fails for %s: %r vs %r" % (name, ops, lhs, rhs),
+                          dict(operands=list(ops)))
+    for a in level1:
+        chk("negate", s.negate(a), "(1-(%s))" % a, (a,))
+        chk("double-negate", s.negate(s.negate(a)), a, (a,))
+        chk("plus-zero", s.plus(a, s.zero()), a, (a,))
+        chk("times-one", s.times(s.one(), a), a, (a,))
+    for _ in range(n):
+        a, b, c = rng.choice(level1), rng.choice(level1), rng.choice(level1)
+        chk("plus-comm", s.plus(a, b), s.plus(b, a), (a, b))
+        chk("times-comm", s.times(a, b), s.times(b, a), (a, b))
+        chk("plus-image", s.plus(a, b), "(%s)+(%s)" % (a, b), (a, b))
+        chk("times-image", s.times(a, b), "(%s)*(%s)" % (a, b), (a, b))
+        chk("distrib", s.times(a, s.plus(b, c)), s.plus(s.times(a, b), s.times(a, c)), (a, b, c))
+        chk("negate-of-product", s.negate(s.times(a, b)), "(1-(%s)*(%s))" % (a, b), (a, b))
+    return col.result()
+
+
+def run_log_image(tier, seed):
+    """log-probability is the logarithmic image of probability, at the level of the objects (whatever class of the
+    hierarchy implements a method): plus, times, negate, normalize, value, ad_complement on a grid incl. 0 and 1."""
+    import math
+    from problog.evaluator import SemiringProbability, SemiringLogProbability
+    P, L = SemiringProbability(), SemiringLogProbability()
+    vals = [0.0, 1e-12, 1e-7, 0.1, 0.25, 0.3, 0.5, 0.75, 0.9, 1.0 - 1e-7, 1.0]
+    col = Collector("C12:log-image-of-probability", "the probability grid %s: value/plus/times/negate/normalize on all values and "
+                    "pairs (plus only where a+b <= 1, normalize where a <= z, z > 0), ad_complement on all lists of 0-3 grid "
+                    "values with sum <= 1 (all-zero lists included); exp of the log-space answer within 1e-9 of the "
+                    "probability-space answer, and an error in one space only is a deviation" % vals)
+
+    def call(f, *a):
+        try:
+            return "ok", f(*a)
+        except Exception as e:      # noqa
+            return "exc", type(e).__name__
+
+    def cmp(name, pr, lr, args):
+        col.case((name,) + tuple(args))
+        if pr[0] != lr[0]:
+            col.violation("bounded:log-image:" + name, "%s%s: probability space gives %s, log space gives %s" % (name, args, pr, lr),
+                          dict(args=list(args)))
+        elif pr[0] == "ok":
+            back = math.exp(lr[1]) if lr[1] != float("-inf") else 0.0
+            if not abs(back - pr[1]) <= 1e-9:
+                col.violation("bounded:log-image:" + name, "%s%s: probability space gives %r, exp of the log-space answer is %r"
+                              % (name, args, pr[1], back), dict(args=list(args)))
+    lv = dict((v, L.value(v)) for v in vals)
+    for a in vals:
+        cmp("value", call(P.value, a), call(L.value, a), (a,))
+        cmp("negate", call(P.negate, P.value(a)), call(L.negate, lv[a]), (a,))
+        for b in vals:
+            if a + b <= 1.0:
+                cmp("plus", call(P.plus, a, b), call(L.plus, lv[a], lv[b]), (a, b))
+            cmp("times", call(P.times, a, b), call(L.times, lv[a], lv[b]), (a, b))
+            if a <= b and b > 1e-7:
+                cmp("normalize", call(P.normalize, a, b), call(L.normalize, lv[a], lv[b]), (a, b))
+    for k in range(0, 4):
+        for ws in itertools.product(vals, repeat=k):
+            if sum(ws) <= 1.0:
+                cmp("ad_complement", call(P.ad_complement, list(ws)), call(L.ad_complement, [lv[w] for w in ws]), ws)
+    return col.result()
+
+
 def run(tier, seed):
+    return run_base(tier, seed) + [run_closure(tier, seed), run_log_image(tier, seed)]
+
+
+def run_base(tier, seed):
     from problog.evaluator import SemiringSymbolic, SemiringProbability
     s, p = SemiringSymbolic(), SemiringProbability()
     col = Collector("C12:SemiringSymbolic", "all pairs/triples over the operand alphabet %s; each produced expression "
